@@ -519,6 +519,19 @@ def get_jax():
         import jax
 
         jax.config.update("jax_enable_x64", True)
+        # Eager JAX compiles one XLA kernel per (primitive, shape): ~700 per circuit. A persistent cache keyed by the HLO
+        # (so a changed computation never hits a stale entry) keeps later runs inside the time budget.
+        try:
+            import os
+            from vf import boot
+
+            cache = os.path.join(boot.BUILD, "jaxcache")
+            os.makedirs(cache, exist_ok=True)
+            jax.config.update("jax_compilation_cache_dir", cache)
+            jax.config.update("jax_persistent_cache_min_compile_time_secs", 0.0)
+            jax.config.update("jax_persistent_cache_min_entry_size_bytes", -1)
+        except Exception:
+            pass
         _JAX["jax"] = jax
     return _JAX["jax"]
 
@@ -1216,12 +1229,12 @@ def shard_perm(ctx, spec, pq, rng):
 
 # =========================================================================== plan / run
 TF_ENV = {"OPENBLAS_NUM_THREADS": "1", "OMP_NUM_THREADS": "1", "TF_NUM_INTRAOP_THREADS": "2", "TF_NUM_INTEROP_THREADS": "1",
-          "NUMBA_NUM_THREADS": "2"}
-JAX_ENV = {"OPENBLAS_NUM_THREADS": "1", "OMP_NUM_THREADS": "1", "NUMBA_NUM_THREADS": "2",
+          "NUMBA_NUM_THREADS": "1"}
+JAX_ENV = {"OPENBLAS_NUM_THREADS": "1", "OMP_NUM_THREADS": "1", "NUMBA_NUM_THREADS": "1",
            "XLA_FLAGS": "--xla_cpu_multi_thread_eigen=false intra_op_parallelism_threads=2"}
 # VERIF_HWC=1: the permanent kernel starts 4*hardware_concurrency threads per call; the oracle needs ~100 calls per input and the
 # partition of that kernel is the subject of C04/C11. The batched backward loop is sized by OMP_NUM_THREADS (4 threads here).
-PERM_ENV = {"OPENBLAS_NUM_THREADS": "1", "OMP_NUM_THREADS": "4", "NUMBA_NUM_THREADS": "2", "VERIF_HWC": "1"}
+PERM_ENV = {"OPENBLAS_NUM_THREADS": "1", "OMP_NUM_THREADS": "4", "NUMBA_NUM_THREADS": "1", "VERIF_HWC": "1"}
 
 
 def plan(tier, seed):
